@@ -90,6 +90,7 @@ type Interp struct {
 	symOrder bool
 	inInit   bool
 	jsonBlobs map[*Backing]*jsonBlob
+	blobList  []*jsonBlob
 	panicVal  Value
 	recovered bool
 	panicking bool
@@ -1079,14 +1080,19 @@ func (in *Interp) binop(op token.Token, a, b Value, t types.Type) Value {
 	case FloatV:
 		y := b.(FloatV)
 		if x.FromI != nil || y.FromI != nil {
-			eq := in.floatEq(x, y)
 			switch op {
 			case token.EQL:
-				return eq
+				return in.floatEq(x, y)
 			case token.NEQ:
-				return tf.Not(eq)
+				return tf.Not(in.floatEq(x, y))
 			}
-			in.unsupported("float op %s on symbolic float", op)
+			// arithmetic and ordering: fork over the feasible values of the integer
+			if x.FromI != nil {
+				x = FloatV{Conc: float64(in.concretizeInt(x.FromI, true))}
+			}
+			if y.FromI != nil {
+				y = FloatV{Conc: float64(in.concretizeInt(y.FromI, true))}
+			}
 		}
 		switch op {
 		case token.EQL:
@@ -1476,6 +1482,17 @@ func (in *Interp) prepareCall(fr *frame, c *ssa.CallCommon) (*Closure, []Value, 
 }
 
 func (in *Interp) invokePrepared(fr *frame, cl *Closure, args []Value, binds []Value) Value {
+	if cl.Fn != nil && !in.inInit {
+		if pp := pkgPathOf(cl.Fn); pp == "sync" || pp == "sync/atomic" {
+			for _, a := range args {
+				if p, ok := a.(PtrV); ok && p.R != nil {
+					if c := refRoot(p.R); c != nil && c.Glob != nil && c.Glob.Pkg != nil && strings.HasPrefix(c.Glob.Pkg.Pkg.Path(), repoMod) {
+						in.gwrites[c.Glob.String()+" (shared "+pp+" object used through "+cl.Fn.Name()+") in "+fr.fn.String()] = true
+					}
+				}
+			}
+		}
+	}
 	if cl.Native != "" {
 		return in.callNative(fr, cl, args)
 	}
